@@ -317,7 +317,12 @@ def write_evidence(pid, tier, seed, coverage, assumptions, wall, violations):
     os.makedirs(os.path.join(ROOT, "evidence"), exist_ok=True)
     ev = {"property_id": pid, "tier": tier, "seed": seed, "level": "proof", "coverage": coverage,
           "assumptions": assumptions, "wall_s": round(wall, 2), "violations": violations}
-    with open(os.path.join(ROOT, "evidence", f"{pid}.json"), "w") as f:
+    # evidence/ describes runs against /repo only; a run against a scratch checkout (VERIF_REPO)
+    # leaves its record under out/
+    target = os.path.join(ROOT, "evidence", f"{pid}.json") if REPO == "/repo" \
+        else os.path.join(OUT, pid, "evidence-alt.json")
+    os.makedirs(os.path.dirname(target), exist_ok=True)
+    with open(target, "w") as f:
         json.dump(ev, f, indent=1)
         f.write("\n")
 
